@@ -109,7 +109,11 @@ Spec == Init /\ [][Next]_vars
 
 \* Evaluated as INVARIANTs (always TRUE): side effects only.  A trace is accepted iff all its events were
 \* consumed and no handle was ever found changed.
-ReportC20 == /\ (l = Len(Events) + 1 /\ nchg = 0) => PrintT(<<"ACC", Trace.tid>>)
+\* (Strict: the ACC line itself is withheld for a trace with a changed handle — used by the binding self-tests; in
+\* the batch runs the harness withdraws the acceptance of every tid that has a CHANGED line, which spares the
+\* runner's diagnostic second pass over traces whose failing events are already named by the CHANGED lines.)
+Strict == IOEnv.C20_STRICT = "1"
+ReportC20 == /\ (l = Len(Events) + 1 /\ (Strict => nchg = 0)) => PrintT(<<"ACC", Trace.tid>>)
              /\ Diag => PrintT(<<"AT", Trace.tid, l>>)
 Inv == StateInv(st)
 \* the frame property itself, on the replayed behaviour
